@@ -15,7 +15,9 @@ from nv.framework import Check, pmap, sha, harness_fail
 from nv import loader, progs
 
 OPTSETS = [[], ["-O0"], ["-O3"], ["-feof-support", "-fyield-support"], ["-fallocate-str-space-dynamic-on-demand", "-fdelete-string-free-memory"],
-           ["-feof-support", "-fcodepoints-in-errors", "-O2", "--collapsed-range-length", "0"], ["-O2", "--collapsed-range-length", "-3", "--max-shortcircuit-fallthrough", "-1"]]
+           ["-feof-support", "-fcodepoints-in-errors", "-O2", "--collapsed-range-length", "0"], ["-O2", "--collapsed-range-length", "-3", "--max-shortcircuit-fallthrough", "-1"],
+           # (the two sets above are refused as option errors since 759847a; these are their legal neighbours)
+           ["-feof-support", "-fcodepoints-in-errors", "-O2", "--collapsed-range-length", "1"], ["-O3", "--collapsed-range-length", "2", "--max-shortcircuit-fallthrough", "0", "-feof-support"]]
 
 OUT_TYPES = ["bool", "int", "int{unsigned}", "int{signed, size 1}", "int{unsigned, size 2}", "int{size 4}", "int{unsigned, size 8}", "enum{A,B}", "str[4]", "unterminated str[4]", "raw{uint32_t}", "raw{uint8_t}"]
 ODD_TYPES = ["int{size %d}" % k for k in (0, 3, 5, 6, 7, 9, 16)] + ["int{unsigned, size %d}" % k for k in (0, 3, 5, 6, 7, 9, 16)] + \
@@ -189,6 +191,11 @@ def structure_cases():
     add('parser { optional { "a"; } /[a-c]/; }', "ambiguity diagnostics on a range")
     add('parser { case { /[a-f]+/ -> {} "abc" -> {} } }', "ambiguous case with ranges")
     add('parser { "a"; end; }', "end after a match")
+    add('out int m = 0; parser { "a"; case { end -> { m = 1; } "b" -> { m = 2; } } }', "end as a case label")
+    add('hook h; parser { try { "a"; end; } catch { h(); } }', "end inside try")
+    add('parser { "a"; optional { end; } end; }', "ambiguous end patterns after a match")
+    add('parser { case { end -> {} "a" -> {} } end; }', "ambiguous end after a case")
+    add('parser { /a+/; optional { "b"; end; } end; }', "end after an optional ending in end")
     add('parser { /[a-z]+/; /[0-9a-f]/; end; }', "ranges before end")
     add('out enum{aa,Bb,c_d} e; parser { "a"; e = aa; "b"; e = Bb; "c"; if e == c_d { "d"; } }', "lower-case enum constants")
     add('finishcode ok, Fail; yieldcode more; parser { "a"; finish ok; }', "lower-case result codes")
@@ -263,7 +270,7 @@ def run(tier, seed):
             cases.append((U.source(p), "nested blocks N#%d" % i, U.needs_flags(p)))
     items = []
     for i, (s, w, a) in enumerate(cases):
-        osets = OPTSETS if (tier == "thorough" or i % 5 == seed % 5) else [OPTSETS[0], OPTSETS[1 + i % 6]]
+        osets = OPTSETS if (tier == "thorough" or i % 5 == seed % 5 or (re.search(r"\bend\b", s) and "nested blocks" not in w)) else [OPTSETS[0], OPTSETS[1 + i % 8], OPTSETS[7 + i % 2]]
         for o in osets:
             items.append((s, w, a + [x for x in o if x not in a]))
     # contradictory option sets (a flag requested together with the negation of what it implies) on a few programs
